@@ -23,15 +23,33 @@ def run(ctx):
         "delivered in arrival order through call_soon; the publisher sends a deep copy. Not decided: pickle round trip, transport ordering.")
     pub = repo.func(ZM, "Publisher.__call__")
     joins = [c for c in A.calls_in(pub.node) if isinstance(c.func, ast.Attribute) and c.func.attr == "join"]
-    ok = len(joins) == 1 and A.norm(joins[0].func.value) == "b' '" and isinstance(joins[0].args[0], ast.List) and \
-        [A.norm(e) for e in joins[0].args[0].elts] == ["self._prefix", "name.encode()", "self._serializer(doc)"]
+    gp = q.cfg(pub, q.quiet_policy(repo))
+    elts = []
+    if len(joins) == 1 and isinstance(joins[0].args[0], ast.List):
+        st_ = A.enclosing_stmt(joins[0], A.parents(pub.node))
+        ids_ = gp.nodes_of(st_) if st_ is not None else []
+        # every element with the function's temporaries followed back (the copy may have its own name)
+        elts = [A.norm(q.expand_at(gp, ids_[0], e)) if ids_ else A.norm(e) for e in joins[0].args[0].elts]
+    ok = len(joins) == 1 and A.norm(joins[0].func.value) == "b' '" and elts[:2] == ["self._prefix", "name.encode()"] and len(elts) == 3 and elts[2].startswith("self._serializer(")
     ctx.ob("C33.D1-framing-agrees", cname(pub, None, "frame = b' '.join([prefix, name, payload])"), ok,
            "" if ok else "the publisher's frame layout changed", nontrivial=True, where=where(pub, pub.node))
-    ok = any(A.norm(s) == "self._socket.send(message)" for s in pub.node.body) and any(A.norm(s) == "doc = copy.deepcopy(doc)" for s in pub.node.body)
+    sends = [c for c in A.calls_in(pub.node) if A.call_name(c) == "self._socket.send"]
+    sent_is_frame = False
+    if len(sends) == 1 and len(sends[0].args) == 1 and len(joins) == 1:
+        st_ = A.enclosing_stmt(sends[0], A.parents(pub.node))
+        ids_ = gp.nodes_of(st_) if st_ is not None else []
+        sent = q.expand_at(gp, ids_[0], sends[0].args[0]) if ids_ else sends[0].args[0]
+        sent_is_frame = isinstance(sent, ast.Call) and isinstance(sent.func, ast.Attribute) and sent.func.attr == "join"
+    ok = sent_is_frame and len(elts) == 3 and elts[2] == "self._serializer(copy.deepcopy(doc))"
     ctx.ob("C33.D1-framing-agrees", cname(pub, None, "a deep copy of the document is serialised and the frame is sent once"), ok, "" if ok else "send / copy changed", where=where(pub, pub.node))
     poll = repo.func(ZM, "RemoteDispatcher._poll")
     splits = [s for s in A.walk_stmts(poll.node.body) if isinstance(s, ast.Assign) and "message.split(" in A.norm(s.value)]
-    ok = len(splits) == 1 and A.norm(splits[0].value) == "message.split(b' ', 2)" and [A.norm(e) for e in splits[0].targets[0].elts] == ["prefix", "name", "doc"]
+    F = None  # the three field names, whatever they are called
+    if len(splits) == 1 and isinstance(splits[0].targets[0], ast.Tuple) and len(splits[0].targets[0].elts) == 3 and all(isinstance(e, ast.Name) for e in splits[0].targets[0].elts):
+        F = [e.id for e in splits[0].targets[0].elts]
+    txt_poll = A.norm(poll.node)
+    ok = F is not None and A.norm(splits[0].value) == "message.split(b' ', 2)" and f"{F[0]} == our_prefix" in txt_poll and f"{F[1]}.decode()" in txt_poll \
+        and f"self._deserializer({F[2]})" in txt_poll
     ctx.ob("C33.D1-framing-agrees", cname(poll, None, "(prefix, name, doc) = frame.split(b' ', 2)"), ok,
            "" if ok else "the reader no longer splits the frame into the three fields the publisher joins (same separator, order, at most 2 splits so the payload may contain it)",
            nontrivial=True, where=where(poll, poll.node))
@@ -46,7 +64,7 @@ def run(ctx):
         if isinstance(s, (ast.Try, ast.If, ast.While, ast.For, ast.With)):
             continue
         t = A.norm(s)
-        if "message.split(" in t or "name.decode(" in t or "self._deserializer(" in t or "DocumentNames[" in t:
+        if "message.split(" in t or (F is not None and f"{F[1]}.decode(" in t) or "name.decode(" in t or "self._deserializer(" in t or "DocumentNames[" in t:
             fallible.append(s)
     pm = A.parents(poll.node)
     for s in fallible:
@@ -78,7 +96,11 @@ def run(ctx):
                        "(every later document is lost) instead of being dropped", nontrivial=True, where=where(poll, s))
             for h in hs:
                 ifs = [x for x in h.body if isinstance(x, ast.If) and A.norm(x.test) == "self._strict"]
-                good = bool(ifs) and any(isinstance(y, ast.Raise) and "Bluesky0MQDecodeError" in A.norm(y) for y in ifs[0].body) and ifs[0].orelse and isinstance(ifs[0].orelse[-1], ast.Continue)
+                # strict: raise; otherwise the frame is dropped: `else: ...; continue` or a `continue` after the if (the raise leaves)
+                good = bool(ifs) and any(isinstance(y, ast.Raise) and "Bluesky0MQDecodeError" in A.norm(y) for y in ifs[0].body) and \
+                    ((bool(ifs[0].orelse) and isinstance(ifs[0].orelse[-1], ast.Continue)) or
+                     (not ifs[0].orelse and isinstance(ifs[0].body[-1], ast.Raise) and isinstance(A.body(h.body)[-1], ast.Continue)
+                      and not any(isinstance(z, (ast.Return, ast.Break)) for z in A.walk_stmts(h.body))))
                 ok = ok and good
             why = "its handler does not (raise Bluesky0MQDecodeError if strict else continue)"
         ctx.ob("C33.D2-malformed-frames-dropped", cname(poll, s), ok,
